@@ -493,12 +493,13 @@ def task(t, res):
     t_start = time.time()
     if t["what"] == "ds":
         ds_task(t, res)
-        res.add("stats", ("dataset level, pool " + t["pool"] + " / " + t["answers"], t["id"], len(t["seqs"]), 0,
+        res.add("stats", ("dataset level, pool " + t["pool"] + " / " + t["answers"], t["id"], len(t["seqs"]) if t["primary"] else 0, 0,
                           res.counters.get("dataset_executions", 0), round(time.time() - t_start, 1)))
         return
     rt_task(t, res)
-    res.add("stats", (t["space"], t["id"], len(t["graphs"]), res.counters.pop("mazes", 0), res.counters.get("as_tokens_executions", 0),
-                      round(time.time() - t_start, 1)))
+    n_mazes = res.counters.pop("mazes", 0)
+    res.add("stats", (t["space"], t["id"], len(t["graphs"]) if t["primary"] else 0, n_mazes if t["toks"] in ("ALL15", "BASE", "MODE0") else 0,
+                      res.counters.get("as_tokens_executions", 0), round(time.time() - t_start, 1)))
 
 
 def rt_task(t, res):
@@ -509,6 +510,8 @@ def rt_task(t, res):
             if not index_condition(cl):
                 raise AssertionError(f"graph {g} outside the property's domain")
             mz = mazes_of(g, cl, t["kinds"])
+            if t.get("mslice"):
+                mz = mz[t["mslice"][0]:: t["mslice"][1]]
             res.count("mazes", len(mz))
             for ms in mz:
                 check_maze(ms, cl, toknames, t["answers"], res, t["space"])
@@ -652,7 +655,7 @@ def block(space, graphs, kinds, toks, answers, tier, budget):
 
 def plan(tier, dfs44):
     quick = tier == "quick"
-    budget = 2500 if quick else 30000
+    budget = 2500 if quick else 20000
     bits = lambda n, L: [["bits", n, b] for b in L]  # noqa: E731
     t2, c2, d2 = small_graphs(2)
     t3, c3, d3 = small_graphs(3)
@@ -679,7 +682,11 @@ def plan(tier, dfs44):
                               graphs=[g], kinds="TS4", toks=f"MODE{k}", answers="id"))
         B("structured 11/12/20 / untargeted / base tokenizers / few answers", big, "L", "BASE", "few")
     else:
-        B("2x2 all graphs / all kinds / all tokenizers / every shuffle answer", g2, "all", "ALL15", "all")
+        for g in g2:
+            for k in range(3):
+                for i in range(2):
+                    T.append(dict(what="rt", tier=tier, space="2x2 all graphs / all kinds / all tokenizers / every shuffle answer",
+                                  graphs=[g], kinds="all", toks=f"MODE{k}", answers="all", mslice=[i, 2]))
         B("3x3 trees / all kinds / all tokenizers / identity", bits(3, t3), "all", "ALL15", "id")
         B("3x3 trees / untargeted / base tokenizers / <=1 deviation", bits(3, t3), "L", "BASE", "dev1")
         B("3x3 trees / untargeted / all tokenizers / lite answers", bits(3, t3), "L", "ALL15", "lite")
@@ -722,6 +729,7 @@ def run(ctx):
     tasks, info = plan(ctx.tier, dfs44)
     for i, t in enumerate(tasks):
         t["id"] = i
+        t["primary"] = t["toks"] in ("ALL15", "BASE", "MODE0") and t.get("mslice", [0])[0] == 0
     ctx.pmap(MOD, "task", tasks)
     c = ctx.res.counters
     spaces = {}
